@@ -203,6 +203,7 @@ func (g *G) stmt(c *gctx) []*N {
 		if P.Cross || P.Control {
 			add(3, func() []*N { return g.moduleAbrupt(c) })
 		}
+		add(1, func() []*N { return g.freshLiteral(c) })
 		if P.Control && !deep {
 			add(2, func() []*N { return g.returnListAlias(c) })
 			add(1, func() []*N { return g.longForBreak(c) })
@@ -292,6 +293,11 @@ func (g *G) iexpr(c *gctx, depth int) *N {
 	k := g.n(0, 11, "iexpr")
 	if depth <= 0 && k > 3 {
 		k = k % 4
+	}
+	if g.prof.HostChan && depth > 0 && g.chance(6) {
+		// a receive EXPRESSION (as an operand, not the receive statement) from a channel holding one value
+		g.feat("receive_expression_operand")
+		return &N{K: "recv", Ns: []*N{g.iexpr(c, depth-1)}}
 	}
 	switch k {
 	case 0, 1:
@@ -1234,6 +1240,20 @@ func (g *G) returnListAlias(c *gctx) []*N {
 		{K: "expr", Ns: []*N{{K: "fn", S: fn, Ss: [][]*N{body}}}},
 		{K: "expr", Ns: []*N{P1(g.id(), Call(fn))}},
 	}
+}
+
+// freshLiteral: an empty map literal is read, then written into - in a function called twice, or in a loop:
+// every evaluation of a literal makes a new, empty container (also when the same parsed program runs again).
+func (g *G) freshLiteral(c *gctx) []*N {
+	g.feat("empty_map_literal_evaluated_again")
+	read := func() *N {
+		return &N{K: "expr", Ns: []*N{P1(g.id(), &N{K: "coal", Ns: []*N{{K: "idx", Ns: []*N{Id("fm"), Str("k")}}, Str("none")}})}}
+	}
+	write := &N{K: "letidx", Ns: []*N{Id("fm"), Str("k"), g.val()}}
+	if g.chance(50) {
+		return []*N{{K: "forin", Ps: []string{"it"}, Ns: []*N{{K: "list", Ns: []*N{Int(1), Int(2)}}}, Ss: [][]*N{{{K: "let", Ps: []string{"fm"}, Ns: []*N{{K: "map"}}}, read(), write}}}}
+	}
+	return []*N{{K: "let", Ps: []string{"fm"}, Ns: []*N{{K: "map"}}}, read(), write, read()}
 }
 
 // longForBreak: a for-in over a list of several hundred elements left by break (or skipping by continue)
